@@ -44,6 +44,15 @@ FIELD_TYPES = {
     ('SupvisorsOptions', 'multicast_group'): TOpt(TTuple([STR, INT])),
     ('SupvisorsOptions', 'disabilities_file'): TOpt(STR),
     ('SupvisorsOptions', 'rules_files'): TOpt(TList(STR)),
+    # rules parser (C18): xml elements are objects of the external class Element (assumed accessors in externals.py)
+    ('Parser', 'roots'): TList(TObj('Element')),
+    ('Parser', 'aliases'): TDict(STR, TList(STR)),
+    ('Parser', 'models'): TDict(STR, TObj('Element')),
+    ('Parser', 'application_patterns'): TDict(STR, TObj('Element')),
+    ('Parser', 'program_patterns'): TDict(TObj('Element'), TDict(STR, TObj('Element'))),
+    ('Match', 'pattern'): STR,     # ghost view of re.Match: the pattern and the string it was obtained from
+    ('Match', 'string'): STR,
+    ('SupvisorsOptions', 'stereotypes'): TSet(STR),
     ('ProcessCommand', 'minimum_ticks'): INT,
     # declared at base level so that specifications over a ProcessCommand can read it (field of ProcessStartCommand)
     ('ProcessCommand', 'ignore_wait_exit'): BOOL,
@@ -81,7 +90,12 @@ REC_KEYS = {
     'starting_jobs': BOOL, 'stopping_jobs': BOOL, 'instance_states': TDict(STR, STR),
 }
 
-EXTERNAL_TYPES = {}
+EXTERNAL_TYPES = {'Element': TObj('Element'), 'Match': TObj('Match')}
+
+# mutable class-level attributes that the code mutates or aliases: modelled as ONE heap object (C18, Appendix A7)
+CLASS_HEAP_ATTRS = {
+    ('SupvisorsOptions', 'SYNCHRO_DEFAULT_OPTIONS'): TList(TEnum('SynchronizationOptions')),
+}
 
 # ---------------------------------------------------------------------------------------------------- python `ast`
 # The node classes of the running interpreter's `ast` module become *synthetic external classes* 'ast.<Name>' of the
